@@ -411,6 +411,10 @@ func cmdCheck(args []string) int {
 		}
 	}
 	// ---- summary + evidence -------------------------------------------------------------
+	reachBaseline := map[string][]string{}
+	if b, err := os.ReadFile(filepath.Join(verifDir, "reach_baseline.json")); err == nil {
+		json.Unmarshal(b, &reachBaseline)
+	}
 	totAss, totDis, totInc, totUns, totLim := 0, 0, 0, 0, 0
 	vac := map[string]int{}
 	truncated := false
@@ -427,6 +431,13 @@ func cmdCheck(args []string) int {
 		if len(s.Reached) == 0 {
 			vac[s.Name] = 0
 			fmt.Printf("DEGRADED property=%s vacuous=%s (no path reaches a vReach witness)\n", *prop, s.Name)
+		}
+		if !s.Truncated && confirmed == 0 {
+			for _, lbl := range reachBaseline[s.Name] {
+				if s.Reached[lbl] == 0 {
+					fmt.Printf("DEGRADED property=%s harness=%s vacuous for %q: no path reaches this witness any more (it is reached on the reference tree, reach_baseline.json)\n", *prop, s.Name, lbl)
+				}
+			}
 		}
 		for _, m := range s.UnsupMsgs {
 			fmt.Printf("DEGRADED property=%s harness=%s unsupported: %s\n", *prop, s.Name, m)
